@@ -37,6 +37,7 @@ UserDeposit(u, to, d, n) == UserDepositD(u, to, d, n, "p0")
 HookUsers == {"u1", "u2", "u3"}
 HookOf(d) ==
   IF d.data = "p0" \/ d.to \notin HookUsers THEN [kind |-> "none", signer |-> "", msgs |-> << >>]
+  ELSE IF d.data = "hu" THEN [kind |-> "undecodable", signer |-> "", msgs |-> << >>]      \* a memo: bytes that are no transaction - the deposit is refunded, never a relay error
   ELSE [kind |-> "msgs", signer |-> d.to,
         msgs |-> << [kind |-> "withdraw", to |-> d.from, denom |-> d.l2denom, amt |-> d.amt] >>
                  \o (IF d.data = "hwf" THEN << [kind |-> "send", to |-> "panic", denom |-> d.l2denom, amt |-> 1] >> ELSE << >>)]
